@@ -50,6 +50,7 @@ pub proof fn lemma_first_link_range<E, Ix: IndexType>(es: Seq<Edge<E, Ix>>, k: i
 
 /// unlinking edge ev from the k-list of its endpoint a = es0[ev].node[k] (what Graph::change_edge_links did for
 /// direction k), stated for the live-restricted lists of a StableGraph; the slot ev itself is not yet recycled.
+#[verifier::spinoff_prover]
 pub proof fn lemma_sunlink_dir<N, E, Ix: IndexType>(ns0: Seq<Node<Option<N>, Ix>>, es0: Seq<Edge<Option<E>, Ix>>, ns1: Seq<Node<Option<N>, Ix>>, es1: Seq<Edge<Option<E>, Ix>>,
         k: int, ls: Seq<Seq<int>>, p: int, ev: EdgeIndex<Ix>, q: int)
     requires
@@ -922,6 +923,7 @@ where
     /// Computes in **O(e')** time, where **e'** is the number of affected
     /// edges, including *n* calls to `.remove_edge()` where *n* is the number
     /// of edges with an endpoint in `a`.
+    /*+*/#[verifier::spinoff_prover]/*-*/
     pub fn remove_node(&mut self, a: NodeIndex<Ix>) -> (r: Option<N>)
         /*+*/requires old(self).wf()
         ensures final(self).wf(),
